@@ -48,18 +48,22 @@ Section WithCtx.
   (** [to_writer_impl] / [to_async_writer_impl] ([asy]) into a stream positioned anywhere *)
   Definition to_writer (asy : bool) (p : pmtiles) (st : wstream) : outcome wstream :=
     do res <- finish cx (p_tm p);
-    let start_pos := ws_pos st in
-    let st := ws_seek st (start_pos + header_bytes) in
+    let '(st, start_pos) := ws_tell st in
+    do hdr_end <- cadd64 start_pos header_bytes;           (* seek(Current(127)) *)
+    let st := ws_seek st hdr_end in
     let root_off := header_bytes in
     do (st, leaf_data) <- write_directories cx asy (p_icomp p) (fr_dir res) None st;
-    do t <- sub64 (ws_pos st) start_pos; do root_len <- sub64 t root_off;
+    let '(st, pos) := ws_tell st in
+    do t <- sub64 pos start_pos; do root_len <- sub64 t root_off;
     do meta_off <- add64 root_off root_len;
     do mbytes <- compress cx asy (p_icomp p) (p_meta p);
-    let st := ws_write st mbytes in
-    do t <- sub64 (ws_pos st) start_pos; do meta_len <- sub64 t meta_off;
+    let st := ws_write_codec cx asy (p_icomp p) st (p_meta p) mbytes in
+    let '(st, pos) := ws_tell st in
+    do t <- sub64 pos start_pos; do meta_len <- sub64 t meta_off;
     do leaf_off <- add64 meta_off meta_len;
     let st := ws_write st leaf_data in
-    do t <- sub64 (ws_pos st) start_pos; do leaf_len <- sub64 t leaf_off;
+    let '(st, pos) := ws_tell st in
+    do t <- sub64 pos start_pos; do leaf_len <- sub64 t leaf_off;
     do data_off <- add64 leaf_off leaf_len;
     let st := ws_write st (fr_data res) in
     let data_len := nlen (fr_data res) in
@@ -70,12 +74,13 @@ Section WithCtx.
     let st := ws_seek st start_pos in
     do hb <- encode_header h;
     let st := ws_write st hb in
+    let st := if asy then ws_log_ev st EvFlush else st in   (* Header::to_async_writer flushes *)
     do t <- add64 start_pos data_off; do endp <- add64 t data_len;
     Ok (ws_seek st endp).
 
   (** writing into a fresh, empty in-memory stream *)
   Definition to_bytes (asy : bool) (p : pmtiles) : outcome bytes :=
-    do st <- to_writer asy p (mkWS [] 0); Ok (ws_img st).
+    do st <- to_writer asy p (ws_new [] 0); Ok (ws_img st).
 
   (** [PMTiles::get_tile(x, y, z)] with the grid guard; [get_tile_by_id] is [get_tile] of the store *)
   Definition get_tile_xyz (p : pmtiles) (x y z : N) : outcome (option bytes) :=
